@@ -326,14 +326,35 @@ def r_heap_guard(ctx):
                         cnts.add(x)
             if len(cnts) == 1:
                 cnt = next(iter(cnts))
-                res = []
-                for cv in (0, 5, 20):
-                    vs = [feval(a, lambda x, cv=cv: cv if x == cnt else (10 if x == heap else UNKNOWN)) for a, p_ in ctx.conds(f, nd)]
-                    if any(v is UNKNOWN for v in vs):
-                        res.append(UNKNOWN)
-                    else:
-                        res.append(all(bool(v) == p_ for v, (a, p_) in zip(vs, ctx.conds(f, nd))))
-                run.count('cases', 3)
+                # tests of an optional parameter against None are free: the guard is judged under each of their truth values
+                import itertools as _it
+                free = sorted({x for a, p_ in ctx.conds(f, nd) for x in walk_term(a)
+                               if x[0] == 'cmp' and x[1] in ('is', 'is not') and x[3] == ('c', None) and x[2][0] == 'v' and x[2][2] == 'P'},
+                              key=repr)[:4]
+                table = []
+                for asg in _it.product((True, False), repeat=len(free)):
+                    amap = dict(zip(free, asg))
+                    row = []
+                    for cv in (0, 5, 20):
+                        vs = [feval(a, lambda x, cv=cv: cv if x == cnt else (10 if x == heap else amap.get(x, UNKNOWN)))
+                              for a, p_ in ctx.conds(f, nd)]
+                        if any(v is UNKNOWN for v in vs):
+                            row.append(UNKNOWN)
+                        else:
+                            row.append(all(bool(v) == p_ for v, (a, p_) in zip(vs, ctx.conds(f, nd))))
+                    table.append((amap, row))
+                run.count('cases', 3 * len(table))
+                entered = [(amap, row) for amap, row in table if row[2] is True]
+                res = [True if any(r[i] is True for _a, r in table) else
+                       (UNKNOWN if any(r[i] is UNKNOWN for _a, r in table) else False) for i in range(3)]
+                if entered:
+                    amap = entered[0][0]
+                    run.refute('R-PROG', f, 'candidate-product:heap-guard', nd.lineno,
+                               'with 20 combinations and heap_size 10 the loop over product(*candidate sets) is entered%s: the guard does '
+                               'not stop the enumeration, so the work is exponential in the number of detected errors'
+                               % ((' when ' + ', '.join('%s is %s' % (show(k_)[:30], v_) for k_, v_ in amap.items())) if amap else ''),
+                               inputs='strands with many detected errors (2^n combinations)' + (', with a check supplied' if amap else ''))
+                    continue
                 if res[2] is True:
                     run.refute('R-PROG', f, 'candidate-product:heap-guard', nd.lineno,
                                'the guard of the candidate product evaluates to (%s, %s, %s) for a combination count of 0, 5 and 20 with '
@@ -779,6 +800,19 @@ def r_cand(ctx):
         for a, pol in flags:
             defs = [f.defs[i] for i in a[2]]
             vals = [TermBuilder(f, d.node).def_term(d.id) for d in defs]
+            # the flag STARTS true: a candidate whose tail walk stays on arcs is always reported.  A start value computed from the
+            # strand suppresses candidates for a reason that has nothing to do with the walk
+            if pol and ('c', False) in vals and len(vals) == 2 and ('c', True) not in vals:
+                other = [(d_, v_) for d_, v_ in zip(defs, vals) if v_ != ('c', False)][0]
+                stepn0 = {s.node.id for s in steps}
+                in_tail = any(L in f.nodes[s_].loops for s_ in stepn0 for L in f.nodes[other[0].node].loops)
+                if other[1] is not None and other[1][0] in ('cmp', 'bool', 'un') and not in_tail:
+                    run.refute('R-CAND', f, '%s:flag-starts-true' % tag, f.nodes[other[0].node].lineno,
+                               'the reliability flag of the %s candidate starts as %s instead of True: the candidate is suppressed whenever '
+                               'that expression is false, although its tail walk stays on arcs - the original strand can be missing '
+                               'from the candidates' % (tag, show(other[1])[:60]),
+                               inputs='edits for which the start expression is false (e.g. inside a run of equal nucleotides; at '
+                                      'position 0 the index -1 wraps to the end of the chunk)')
             if pol and ('c', True) in vals and ('c', False) in vals and len(vals) == 2:
                 # the False definition sits in the tail loop on the non-member arm together with a break
                 dfalse = defs[vals.index(('c', False))]
@@ -1331,6 +1365,14 @@ def r_sites(ctx):
         if callee is None or callee.name != 'path_matching' or not nd.loops:
             continue
         lp = nd.loops[-1]
+        skipping = [pth for pth, k in ctx.body_paths(f, lp) if k == 'back' and nd.id not in pth]
+        if skipping:
+            last = f.nodes[skipping[0][-1]]
+            run.refute('R-SITE', f, 'every-look-back-position-tried', last.lineno,
+                       'a round of the look-back loop over the recalled vertices can end (line %d) without calling path_matching for that '
+                       'position: a recalled position is skipped, and when the error can only be repaired from there the original '
+                       'strand is missing from the candidates' % last.lineno,
+                       inputs='edits noticed late in a locally periodic region (the same vertex recalled at two positions)')
         for pth, k in ctx.body_paths(f, lp):
             if k in ('break', 'return') and nd.id in pth:
                 last = f.nodes[pth[-1]]
